@@ -422,8 +422,80 @@ def run_units(unit):
     yield log.result()
 
 
+# ---- the assessment entered through the real reader: porosity / area / thickness as the input lines state them ----------------------------
+def run_input(unit):
+    """HIP_RA_X.read_parameters + Calculate with the numeric tokens of the input lines symbolic: the volumes are the STATED porosity fractions
+    of the STATED area x thickness (whatever the reader does to the numbers on the way in)."""
+    from . import c07
+    P = c07.P
+    cfg = {'harness': 'from-input-lines'}
+    log = harness.UnitLog(cfg)
+    lines = {'Reservoir Porosity': (0, 100), 'Reservoir Area': (0.001, 10000), 'Reservoir Thickness': (0.001, 10000), 'Reservoir Temperature': (100, 400),
+             'Recoverable Fluid Factor': (0, 1)}
+    attr = {'Reservoir Porosity': 'reservoir_porosity', 'Reservoir Area': 'reservoir_area', 'Reservoir Thickness': 'reservoir_thickness',
+            'Reservoir Temperature': 'reservoir_temperature', 'Recoverable Fluid Factor': 'recoverable_fluid_factor'}
+
+    def drive(vals, symbolic):
+        o = fresh()
+        ents = {}
+        for n in lines:
+            if symbolic:
+                tok = c07.NumStr('SYMV')
+                tok.proxy = vals[n]
+            else:
+                tok = repr(float(vals[n]))
+            ents[n] = P.ParameterEntry(Name=n, sValue=tok, raw_entry=f'{n}, {tok}')
+        ents['Rejection Temperature'] = P.ParameterEntry(Name='Rejection Temperature', sValue='60', raw_entry='Rejection Temperature, 60')
+        o.InputParameters = ents
+        with contextlib.redirect_stdout(io.StringIO()), contextlib.redirect_stderr(io.StringIO()):
+            if symbolic:
+                with shim.shadow(*(list(c07.param_shadows()) + SHADOWS + [(H, 'read_input_file', lambda *a, **k: None)])):
+                    o.read_parameters()
+                    o.Calculate()
+            else:
+                with shim.shadow((H, 'read_input_file', lambda *a, **k: None)):
+                    o.read_parameters()
+                    o.Calculate()
+        return o
+
+    def obligations(vals, o):
+        V = vals['Reservoir Area'] * vals['Reservoir Thickness']
+        phi = vals['Reservoir Porosity'] / 100.0
+        return [('reservoir volume = stated area x stated thickness', core.near(o.reservoir_volume.value, V)),
+                ('rock volume = (1 - stated porosity) x reservoir volume', core.near(o.volume_rock.value, V * (1 - phi))),
+                ('recoverable fluid volume = stated porosity x recoverable fluid factor x reservoir volume',
+                 core.near(o.volume_recoverable_fluid.value, V * phi * vals['Recoverable Fluid Factor'])),
+                ('stored heat = rock part + fluid part', core.near(o.reservoir_stored_heat.value, o.stored_heat_rock.value + o.stored_heat_fluid.value))]
+
+    def concrete(inp, only=None):
+        vals = {n: float(inp[n]) for n in lines}
+        try:
+            o = drive(vals, False)
+        except Exception as e:
+            return False, {'no result': repr(e)[:160]}
+        bad = [n for n, ok in obligations(vals, o) if not ok and (only is None or n == only)]
+        return bool(bad), {'failed': bad, 'input lines': vals, 'porosity used': float(o.reservoir_porosity.value), 'reservoir volume': float(o.reservoir_volume.value),
+                           'rock volume': float(o.volume_rock.value), 'fluid volume': float(o.volume_recoverable_fluid.value)}
+
+    def fn():
+        vals = {n: sym(n, *lines[n]) for n in lines}
+        o = drive(vals, True)
+        return obligations(vals, o)
+    zv = {n: z3.Real(n) for n in lines}
+    k = 0
+    for pr in core.explore(fn, max_paths=3000, catch=(RuntimeError, ValueError)):
+        log.path(pr)
+        k += 1
+        if pr.aborted or pr.error is not None:
+            continue
+        harness.reachable(log, pr.ctx, 2000)
+        for name, cond in pr.value:
+            harness.discharge(log, pr.ctx, 'from the input lines: ' + name, cond, zv, lambda inp, name=name: concrete(inp, name), timeout_ms=20000, sample=(k == 1))
+    yield log.result()
+
+
 def units(tier, seed):
-    us = []
+    us = [{'harness': 'input'}]
     for dp in (False, True):
         for pp in (False, True):
             for fg in ((False,) if tier == 'quick' and (dp != pp) else (False, True)):
@@ -434,7 +506,9 @@ def units(tier, seed):
 
 
 def run_unit(unit):
-    if unit['harness'] == 'calc':
+    if unit['harness'] == 'input':
+        yield from run_input(unit)
+    elif unit['harness'] == 'calc':
         yield from run_calc(unit)
     else:
         yield from run_units(unit)
